@@ -523,6 +523,10 @@ def shard(ctx):
                 judge_window(ctx, prev, cur, nxt)
     if ctx.i == 0:
         ctx.sample({"window": [["E", "thead"], ["S", "tbody"], ["S", "tr"]]})
+    # every short token sequence, parsed, walked and filtered (bounded-exhaustive)
+    for q in gen.token_sequences(ctx, 3, 3, 0.4):
+        run_case(ctx, {"input": q, "frag": False, "container": None})
+        ctx.count("sequence_cases")
     # (a) + (c)
     n, idx = 0, ctx.i
     limit = (24000 if ctx.tier == "quick" else 1500000) // ctx.n
@@ -547,6 +551,8 @@ def replay(ctx, case):
 
 
 def finalize(m, v):
+    from .. import gen as _gen
+    _gen.sequences_inconclusive(m)
     c = m["counters"]
     nw = len(window_tokens())
     ncur = len([w for w in window_tokens() if w is not None and w[0] in ("S", "E", "Sa")])
